@@ -334,23 +334,27 @@ theorem storeOutputs_outputs (cfg : Cfg) (s : State) (p : Sid) (ot : Int) (d : D
 theorem storeOutputs_logExt (cfg : Cfg) (s : State) (p : Sid) (ot : Int) (d : DataReply) : LogExt s (storeOutputs cfg s p ot d) := by
   unfold storeOutputs
   simp only
-  refine LogExt.trans ?_ (logExt_upd _ p _)
-  have h2 : LogExt s (if cfg.useCache then s.upd p fun x =>
-      { x with outputs := if x.outputs.any (·.1 == ot) then x.outputs.map (fun e => if e.1 == ot then (ot, d.data) else e)
-                          else x.outputs ++ [(ot, d.data)] } else s) := by
-    split
-    · exact logExt_upd _ _ _
-    · exact LogExt.refl s
-  refine LogExt.trans h2 ?_
-  apply foldl_inv (fun st => LogExt _ st)
-  · exact LogExt.refl _
-  · intro st e _ h
-    split
-    · exact h
-    · exact h.trans (logExt_upd _ _ _)
+  have fold : ∀ s2 : State, LogExt s s2 → LogExt s (((cfg.sim p).push.foldl (fun st (e : Port × Sid × TI × Port) =>
+        match OutData.get? d.data e.1 with
+        | .none => st
+        | some v => st.upd e.2.1 fun y =>
+            { y with buffer := insertBuf { time := ot.toNat + tier e.2.2.1.tiers 0, ctr := y.ctr,
+                                           key := { eid := e.2.2.2.1, attr := e.2.2.2.2, ssid := p, seid := e.1.1 }, val := v } y.buffer,
+                     ctr := y.ctr + 1 }) s2).upd p fun x => { x with data := d.data }) := by
+    intro s2 h2
+    refine LogExt.trans ?_ (logExt_upd _ p _)
+    apply foldl_inv (fun st => LogExt s st)
+    · exact h2
+    · intro st e _ h
+      split
+      · exact h
+      · exact h.trans (logExt_upd _ _ _)
+  split
+  · exact fold _ (logExt_upd _ _ _)
+  · exact fold _ (LogExt.refl s)
 
 /-- entering one reply into the real cache and into the history keeps them in step -/
-theorem cacheRef_put {cfg : Cfg} {s s1 s2 : State} {p : Sid} {ot : Int} {x : OutData} (h : CacheRef cfg s)
+theorem cacheRef_put {cfg : Cfg} {s s2 : State} {p : Sid} {ot : Int} {x : OutData} (h : CacheRef cfg s)
     (hmono : ∀ e ∈ histOf cfg p s.log, e.1 ≤ ot)
     (hout : ∀ q, (s2.sims q).outputs = if q = p then cachePut (s.sims p).outputs ot x else (s.sims q).outputs)
     (hhist : ∀ q, histOf cfg q s2.log = if q = p then cachePut (histOf cfg p s.log) ot x else histOf cfg q s.log)
@@ -387,5 +391,376 @@ theorem cacheRef_put {cfg : Cfg} {s s1 s2 : State} {p : Sid} {ot : Int} {x : Out
       subst hqp
       rw [lookup_cachePut (h.sortedO q) ot x hmonoO, lookup_cachePut (h.sortedH q) ot x hmono, h.look q hq τ hτ]
     · exact h.look q hq τ hτ
+
+/-! ### frames: blocks that touch neither caches, nor `get_data` events, nor `last_step` -/
+
+structure Frame (s s' : State) : Prop where
+  out : OutEq s s'
+  log : LogExt s s'
+  last : LastEq s s'
+
+theorem Frame.refl (s : State) : Frame s s := ⟨OutEq.refl s, LogExt.refl s, LastEq.refl s⟩
+theorem Frame.trans {s s' s'' : State} (h1 : Frame s s') (h2 : Frame s' s'') : Frame s s'' :=
+  ⟨h1.out.trans h2.out, h1.log.trans h2.log, h1.last.trans h2.last⟩
+
+theorem frame_upd (s : State) (p : Sid) (f : SimSt → SimSt) (ho : ∀ x, (f x).outputs = x.outputs) (hl : ∀ x, (f x).last = x.last) :
+    Frame s (s.upd p f) := ⟨outEq_upd s p f ho, logExt_upd s p f, lastEq_upd s p f hl⟩
+theorem frame_emit (s : State) (e : Event) (h : e.isGot = false) : Frame s (s.emit e) :=
+  ⟨outEq_emit s e, logExt_emit s e h, lastEq_emit s e⟩
+theorem frame_fail (s : State) (e : SchedErr) : Frame s (s.fail e) := ⟨outEq_fail s e, logExt_fail s e, lastEq_fail s e⟩
+
+theorem advance_frame (cfg : Cfg) (s : State) (q : Sid) : Frame s (advance cfg s q) :=
+  ⟨advance_outEq cfg s q, advance_logExt cfg s q, advance_lastEq cfg s q⟩
+theorem advanceAll_frame (cfg : Cfg) (s : State) : Frame s (advanceAll cfg s) :=
+  ⟨advanceAll_outEq cfg s, advanceAll_logExt cfg s, advanceAll_lastEq cfg s⟩
+theorem settle_frame (cfg : Cfg) (s : State) (p : Sid) : Frame s (settle cfg s p) :=
+  ⟨settle_outEq cfg s p, settle_logExt cfg s p, settle_lastEq cfg s p⟩
+theorem schedule_frame (s : State) (q : Sid) (t : TT) : Frame s (schedule s q t) :=
+  ⟨schedule_outEq s q t, schedule_logExt s q t, schedule_lastEq s q t⟩
+theorem notify_frame (cfg : Cfg) (s : State) (p : Sid) : Frame s (notify cfg s p) :=
+  ⟨notify_outEq cfg s p, notify_logExt cfg s p, notify_lastEq cfg s p⟩
+theorem clearCur_frame (s : State) (p : Sid) (c : TT) : Frame s (clearCur s p c) :=
+  ⟨clearCur_outEq s p c, clearCur_logExt s p c, clearCur_lastEq s p c⟩
+theorem rtCheck_frame (cfg : Cfg) (s : State) (p : Sid) (c : TT) : Frame s (rtCheck cfg s p c) :=
+  ⟨fun r => by rw [rtCheck_sims], rtCheck_logExt cfg s p c, fun r => by rw [rtCheck_sims]⟩
+
+theorem cacheRef_of_frame {cfg : Cfg} {s s' : State} (h : CacheRef cfg s) (hf : Frame s s') : CacheRef cfg s' :=
+  cacheRef_frame h hf.out hf.log (LastMono.of_lastEq hf.last)
+
+theorem cacheRef_finish {cfg : Cfg} {s : State} (h : CacheRef cfg s) (p : Sid) (c : TT) : CacheRef cfg (finish cfg s p c) := by
+  have h3 : CacheRef cfg (advanceAll cfg (notify cfg (clearCur s p c) p)) :=
+    cacheRef_of_frame h (((clearCur_frame s p c).trans (notify_frame cfg _ p)).trans (advanceAll_frame cfg _))
+  unfold finish; simp only
+  split
+  · exact h3
+  · split
+    · exact cacheRef_of_frame (cacheRef_prune h3) (settle_frame cfg _ p)
+    · exact cacheRef_of_frame h3 (settle_frame cfg _ p)
+
+theorem cacheRef_afterStep {cfg : Cfg} {s : State} (h : CacheRef cfg s) (p : Sid) (c : TT) : CacheRef cfg (afterStep cfg s p c) := by
+  have h3 := cacheRef_of_frame h (rtCheck_frame cfg s p c)
+  unfold afterStep; simp only
+  split
+  · exact h3
+  · split
+    · exact cacheRef_finish h3 p c
+    · exact cacheRef_of_frame h3 (frame_upd _ _ _ (fun _ => rfl) (fun _ => rfl))
+
+theorem frame_of_sims (s s' : State) (hs : ∀ q, (s'.sims q).outputs = (s.sims q).outputs ∧ (s'.sims q).last = (s.sims q).last)
+    (hl : LogExt s s') : Frame s s' := ⟨fun q => (hs q).1, hl, fun q => (hs q).2⟩
+
+theorem beginStep_frame (cfg : Cfg) (s : State) (p : Sid) (c : TT) (rest : List TT) : Frame s (beginStep cfg s p c rest) := by
+  have h1 : Frame s (s.upd p fun x => { x with cur := some c, next := rest }) := frame_upd _ _ _ (fun _ => rfl) (fun _ => rfl)
+  unfold beginStep; simp only
+  split
+  · exact h1.trans (frame_fail _ _)
+  · split
+    · exact h1.trans (frame_fail _ _)
+    · refine h1.trans (frame_of_sims _ _ ?_ ⟨[_], rfl, ?_⟩)
+      · intro q
+        unfold getInputData
+        simp only [State.emit_sims, State.upd_sims]
+        by_cases hq : q = p
+        · simp [hq]
+        · simp [hq]
+      · intro e he
+        simp only [List.mem_singleton] at he
+        rw [he]; rfl
+
+/-! ### every action -/
+
+theorem outTimeOf_time (c : TT) (d : DataReply) (h : ¬ (TT.time c : Int) > (outTimeOf c d).1) :
+    ((TT.time (outTimeOf c d).2 : Nat) : Int) = (outTimeOf c d).1 := by
+  unfold outTimeOf at h ⊢
+  simp only at h ⊢
+  split
+  · rename_i heq; exact heq.symm
+  · have : TT.time (zeroExt (d.time.getD (TT.time c : Int)).toNat c.length) = (d.time.getD (TT.time c : Int)).toNat := by
+      simp [TT.time, tier, zeroExt]
+    rw [this]
+    omega
+
+theorem lastMono_setLast (s : State) (p : Sid) (c : TT) (h : ∀ t, (s.sims p).last = some t → t ≤ c) :
+    LastMono s (s.upd p fun y => { y with last := some c }) := by
+  intro q
+  unfold lastTime
+  by_cases hq : q = p
+  · subst hq
+    rw [State.upd_same]
+    simp only
+    cases hl : (s.sims q).last with
+    | none => simp only; omega
+    | some t =>
+      simp only
+      have := TT.time_mono (h t hl)
+      omega
+  · rw [State.upd_other _ _ hq]
+    exact Int.le_refl _
+
+/-- **the cache invariant is kept by every action** that does not fail, given that `last_step` moves forward and that
+the reported output time is not before an earlier one -/
+theorem step_cacheRef {cfg : Cfg} (hc : cfg.useCache = true) {s s' : State} {a : Action} (h : CacheRef cfg s)
+    (hs : step cfg s a = some s') (hf' : s'.failed = none)
+    (hlast : ∀ p r c, a = .stepReply p r → (s.sims p).cur = some c → ∀ t, (s.sims p).last = some t → t ≤ c)
+    (hmono : ∀ p d c, a = .dataReply p d → (s.sims p).cur = some c → ∀ e ∈ histOf cfg p s.log, e.1 ≤ (outTimeOf c d).1) :
+    CacheRef cfg s' := by
+  cases a with
+  | start p =>
+    simp only [step, stepStart] at hs
+    split at hs
+    · split at hs
+      · cases hs; exact cacheRef_of_frame h (advance_frame cfg s p)
+      · cases hs; exact cacheRef_of_frame h ((advance_frame cfg s p).trans (settle_frame cfg _ p))
+    · cases hs
+  | wake p =>
+    simp only [step, stepWake] at hs
+    split at hs
+    · cases hpc : (s.sims p).pc with
+      | awaitSettle a dl =>
+        simp only [hpc] at hs
+        split at hs
+        · have h1 : Frame s (if cfg.rt.isSome then advance cfg (s.upd p fun y => { y with newer := false }) p
+              else (s.upd p fun y => { y with newer := false })) := by
+            have h0 : Frame s (s.upd p fun y => { y with newer := false }) := frame_upd _ _ _ (fun _ => rfl) (fun _ => rfl)
+            split
+            · exact h0.trans (advance_frame cfg _ p)
+            · exact h0
+          generalize (if cfg.rt.isSome then advance cfg (s.upd p fun y => { y with newer := false }) p
+              else (s.upd p fun y => { y with newer := false })) = s2 at hs h1
+          by_cases hfl2 : s2.failed.isSome = true
+          · simp only [hfl2, if_true, Option.some.injEq] at hs
+            subst hs; exact cacheRef_of_frame h h1
+          · simp only [hfl2, Bool.false_eq_true, if_false, Option.some.injEq] at hs
+            subst hs; exact cacheRef_of_frame h (h1.trans (settle_frame cfg _ p))
+        · cases hs
+      | init => simp [hpc] at hs
+      | waitDeps t => simp [hpc] at hs
+      | inStep => simp [hpc] at hs
+      | inGet => simp [hpc] at hs
+      | done => simp [hpc] at hs
+    · cases hs
+  | deps p =>
+    simp only [step, stepDeps] at hs
+    split at hs
+    · cases hpc : (s.sims p).pc with
+      | waitDeps t =>
+        simp only [hpc] at hs
+        split at hs
+        · cases hnext : (s.sims p).next with
+          | nil => simp [hnext] at hs
+          | cons c rest =>
+            simp only [hnext, Option.some.injEq] at hs
+            subst hs
+            exact cacheRef_of_frame h (beginStep_frame cfg s p c rest)
+        · cases hs
+      | init => simp [hpc] at hs
+      | awaitSettle a dl => simp [hpc] at hs
+      | inStep => simp [hpc] at hs
+      | inGet => simp [hpc] at hs
+      | done => simp [hpc] at hs
+    · cases hs
+  | setData p target entries =>
+    simp only [step, stepSetData] at hs
+    split at hs
+    · split at hs
+      · cases hs; exact cacheRef_of_frame h (frame_fail _ _)
+      · cases hs
+        exact cacheRef_of_frame h (frame_upd s target
+          (fun x => { x with setData := entries.foldl (fun acc e => InputData.set acc e.1 e.2) x.setData }) (fun _ => rfl) (fun _ => rfl))
+    · cases hs
+  | getDataReq p target =>
+    simp only [step, stepGetDataReq] at hs
+    split at hs
+    · split at hs
+      · cases hs; exact cacheRef_of_frame h (frame_fail _ _)
+      · cases hs; exact h
+    · cases hs
+  | setEvent p t =>
+    simp only [step, stepSetEvent] at hs
+    split at hs
+    · split at hs
+      · cases hs; exact cacheRef_of_frame h (frame_fail _ _)
+      · split at hs
+        · cases hs; exact cacheRef_of_frame h (schedule_frame _ _ _)
+        · cases hs; exact cacheRef_of_frame h (frame_emit _ _ rfl)
+    · cases hs
+  | stepReply p r =>
+    simp only [step, stepStepReply] at hs
+    split at hs
+    · cases hcur : (s.sims p).cur with
+      | none => simp [hcur] at hs
+      | some c =>
+        simp only [hcur, Option.some.injEq] at hs
+        subst hs
+        have h1 : CacheRef cfg ((s.upd p fun y => { y with last := some c }).emit (.stepped p c)) := by
+          have h0 : CacheRef cfg (s.upd p fun y => { y with last := some c }) :=
+            cacheRef_frame h (outEq_upd s p _ (fun _ => rfl)) (logExt_upd s p _) (lastMono_setLast s p c (hlast p r c rfl hcur))
+          exact cacheRef_of_frame h0 (frame_emit _ _ rfl)
+        unfold processStepReply
+        simp only
+        cases r with
+        | bad => exact cacheRef_of_frame h1 (frame_fail _ _)
+        | none =>
+          simp only
+          split
+          · exact cacheRef_of_frame h1 (frame_fail _ _)
+          · exact cacheRef_afterStep h1 p c
+        | int n =>
+          simp only
+          split
+          · exact cacheRef_of_frame h1 (frame_fail _ _)
+          · split
+            · exact cacheRef_afterStep (cacheRef_of_frame h1 (schedule_frame _ _ _)) p c
+            · exact cacheRef_afterStep h1 p c
+    · cases hs
+  | dataReply p d =>
+    simp only [step, stepDataReply] at hs
+    split at hs
+    · rename_i hlive
+      cases hcur : (s.sims p).cur with
+      | none => simp [hcur] at hs
+      | some c =>
+        simp only [hcur, Option.some.injEq] at hs
+        subst hs
+        have hsf : s.failed = none := by
+          simp only [live, Bool.and_eq_true, Option.isNone_iff_eq_none] at hlive
+          exact hlive.1.1
+        unfold processDataReply at hf' ⊢
+        simp only at hf' ⊢
+        split
+        · -- the early-output branch fails
+          rename_i hot
+          simp only [hot, if_true] at hf'
+          exfalso
+          unfold State.fail at hf'
+          simp only [State.emit, State.upd, hsf] at hf'
+          cases hf'
+        · rename_i hot
+          apply cacheRef_finish
+          have hm := hmono p d c rfl hcur
+          refine cacheRef_put (p := p) (ot := (outTimeOf c d).1) (x := d.data) h hm ?_ ?_ ?_
+          · intro q
+            rw [storeOutputs_outputs cfg _ p _ d hc q]
+            simp only [State.emit_sims]
+            by_cases hq : q = p
+            · subst hq; simp
+            · simp [hq, State.upd_other _ _ hq]
+          · intro q
+            rw [(storeOutputs_logExt cfg _ p _ d).hist q]
+            show histOf cfg q (Event.got p c (outTimeOf c d).2 d.data :: s.log) = _
+            simp only [histOf]
+            by_cases hq : q = p
+            · subst hq
+              simp only [if_true]
+              rw [outTimeOf_time c d hot]
+            · have : ¬ p = q := fun e => hq e.symm
+              simp [hq, this]
+          · have l1 : LastEq s (s.upd p fun x => { x with outTime := (outTimeOf c d).2 }) := lastEq_upd s p _ (fun _ => rfl)
+            exact (l1.trans (lastEq_emit _ _)).trans (storeOutputs_lastEq cfg _ p _ d)
+    · cases hs
+  | tick n =>
+    simp only [step, stepTick] at hs
+    split at hs
+    · cases hs
+    · cases hs
+      exact ⟨h.sortedO, h.sortedH, h.sub, h.look⟩
+
+/-! ### all runs in which reported output times do not go back -/
+
+/-- the `get_data` reply `a` does not report an output time before one reported earlier by the same simulator -/
+def MonoAct (cfg : Cfg) (s : State) (a : Action) : Prop :=
+  ∀ p d c, a = .dataReply p d → (s.sims p).cur = some c → ∀ e ∈ histOf cfg p s.log, e.1 ≤ (outTimeOf c d).1
+
+/-- reachable by a run whose reported output times never go back -/
+inductive ReachM (cfg : Cfg) : State → Prop where
+  | init : ReachM cfg (initState cfg)
+  | step {s s' : State} {a : Action} : ReachM cfg s → step cfg s a = some s' → MonoAct cfg s a → ReachM cfg s'
+
+theorem ReachM.reach {cfg : Cfg} {s : State} (h : ReachM cfg s) : Reach cfg s := by
+  induction h with
+  | init => exact Reach.init
+  | step _ hs _ ih => exact Reach.step ih hs
+
+/-- the declared initial cache content is in key order -/
+def InitSorted (cfg : Cfg) : Prop := ∀ q, Sorted (cfg.sim q).outputs0
+
+theorem reachM_cacheRef {cfg : Cfg} (hw : WFCfg cfg) (hc : cfg.useCache = true) (hi : InitSorted cfg) {s : State}
+    (hr : ReachM cfg s) : s.failed = none → CacheRef cfg s := by
+  induction hr with
+  | init =>
+    intro _
+    exact ⟨fun q => hi q, fun q => hi q, fun _ _ he => he, fun _ _ _ _ => rfl⟩
+  | @step s s' a hr hstep hm ih =>
+    intro hnf
+    have hf0 : s.failed = none := by
+      cases hf : s.failed with
+      | none => rfl
+      | some e =>
+        have := step_none_of_failed (cfg := cfg) (s := s) (by simp [hf]) a
+        rw [this] at hstep
+        cases hstep
+    refine step_cacheRef hc (ih hf0) hstep hnf ?_ hm
+    intro p r c ha hcur t hlast
+    have hlive : p < cfg.n := by
+      subst ha
+      simp only [step, stepStepReply] at hstep
+      split at hstep
+      · rename_i hl
+        simp only [live, Bool.and_eq_true, decide_eq_true_eq] at hl
+        exact hl.1.2
+      · cases hstep
+    obtain ⟨hcore, _⟩ := reach_good hw hr.reach hf0
+    have hso := hcore p hlive
+    have hb : t ∈ (s.sims p).begun := reach_lastOk hw hr.reach hf0 p hlive t hlast
+    rw [← hso.cur_eq c hcur]
+    exact hso.begun_le t hb
+
+/-! ### the pulled inputs are the history's values -/
+
+/-- `pullInputs` with the cache replaced by a history `H` -/
+def pullSpec (cfg : Cfg) (H : Sid → List (Int × OutData)) (p : Sid) (c : TT) (inp : InputData) : InputData :=
+  (cfg.sim p).pulled.foldl (fun acc (e : Sid × TI × Port × Port) =>
+      let cache := getOutputFor (H e.1) ((TT.time c : Int) - (tier e.2.1.tiers 0 : Int))
+      let v : Val := (OutData.get? cache e.2.2.1).getD .none
+      InputData.set acc { eid := e.2.2.2.1, attr := e.2.2.2.2, ssid := e.1, seid := e.2.2.1.1 } v) inp
+
+theorem foldl_congr_mem {α β : Type} (f g : β → α → β) : ∀ (l : List α) (b : β), (∀ b a, a ∈ l → f b a = g b a) → l.foldl f b = l.foldl g b
+  | [], _, _ => rfl
+  | a :: l, b, h => by
+    simp only [List.foldl_cons]
+    rw [h b a List.mem_cons_self]
+    exact foldl_congr_mem f g l _ (fun b a' ha' => h b a' (List.mem_cons_of_mem _ ha'))
+
+/-- **cache path refines the history**: in every state reachable by a run whose output times do not go back, the values a
+step of `p` at a time `c` (not before its last step) pulls over its cached connections are those of the never-pruned
+history: for each connection the newest output of the source at or before `c − shift` -/
+theorem pull_refines_spec {cfg : Cfg} (hw : WFCfg cfg) (hc : cfg.useCache = true) (hi : InitSorted cfg) (hp : PullOk cfg) {s : State}
+    (hr : ReachM cfg s) (hnf : s.failed = none) {p : Sid} (hpn : p < cfg.n) (c : TT) (hlast : lastTime s p ≤ (TT.time c : Int))
+    (inp : InputData) :
+    pullInputs cfg s p c inp = pullSpec cfg (fun q => histOf cfg q s.log) p c inp := by
+  have href := reachM_cacheRef hw hc hi hr hnf
+  unfold pullInputs pullSpec
+  apply foldl_congr_mem
+  intro acc e he
+  simp only
+  have hq : e.1 < cfg.n := hp.range p hpn e he
+  have h1 := minLast_le cfg s hpn
+  have h2 := maxShift_ge cfg hpn he rfl
+  rw [href.look e.1 hq _ (by omega)]
+
+/-- on a history in key order the lookup is the entry with the greatest time at or before `τ` -/
+theorem hist_lookup_newest {cfg : Cfg} (hw : WFCfg cfg) (hc : cfg.useCache = true) (hi : InitSorted cfg) {s : State}
+    (hr : ReachM cfg s) (hnf : s.failed = none) (q : Sid) (τ : Int) :
+    (∃ e ∈ histOf cfg q s.log, e.1 ≤ τ ∧ (∀ e' ∈ histOf cfg q s.log, e'.1 ≤ τ → e'.1 ≤ e.1) ∧ getOutputFor (histOf cfg q s.log) τ = e.2) ∨
+    ((∀ e ∈ histOf cfg q s.log, ¬ e.1 ≤ τ) ∧ getOutputFor (histOf cfg q s.log) τ = []) := by
+  have hs := (reachM_cacheRef hw hc hi hr hnf).sortedH q
+  unfold getOutputFor
+  rw [find?_reverse_eq_lastSat]
+  cases hl : lastSat (fun (x : Int × OutData) => decide (x.1 ≤ τ)) (histOf cfg q s.log) with
+  | none => right; exact ⟨lastSat_none _ hl, rfl⟩
+  | some e =>
+    left
+    obtain ⟨hm, hle, hmax⟩ := lastSat_some hs hl
+    exact ⟨e, hm, hle, hmax, rfl⟩
 
 end Mosaik
